@@ -146,6 +146,9 @@ def sem_prop(pid, pbit, modes, step_names, extra_quick=(), extra_thorough=()):
         hj("p2_n5", 2, 5, thorough, lock="check", est=600, suffix="_check")
         hj("p3_n7", 3, 7, thorough, est=3000, bonus=True)
     if pid in ("C05", "C06"):
+        quick.append(H(SEMSH, "scenario_%s" % tag, "hold", replay=("semsh_scenario", 0), mask=P(pbit), est_s=160, est_gb=10, mem_gb=24, timeout=1500,
+                       bounds="SHARED (Arc) semaphore, straight-line scenario: fairness, initial permits 0..2, request 1..2 symbolic; acquire future "
+                              "polled, optional re-poll with another waker, release(1..2), re-poll, releaser dropped, future dropped"))
         thorough.append(H(SEMSH, "hist_%s_n4" % tag, "hold", replay=("semsh_hist_noop", 2), mask=P(pbit), est_s=400, est_gb=5, timeout=3000,
                           bounds="E-HIST SHARED (Arc) semaphore: 2 acquire futures, permits 0..2, requests 1..2, N=4 operations, both fairness modes"))
         thorough.append(H(SEMSH, "hist_%s_n5" % tag, "hold", replay=("semsh_hist_noop", 2), mask=P(pbit), est_s=1500, est_gb=6, timeout=3300, bonus=True,
@@ -588,6 +591,8 @@ def c17_prop():
         mpmc_hist("c17", 17, 0, "ca", 5, 5),
         mpmc_hist("c17", 17, 1, "ca", 3, 5),
         H(MPMC, "step_c17_c2_dc", "step", est_s=60, est_gb=1.5, bounds="E-STEP mpmc capacity 2 drop/cancel: cancel() terminates the send future in every state"),
+        H(SEMSH, "scenario_c17", "hold", replay=("semsh_scenario", 0), mask=P(17), est_s=160, est_gb=10, mem_gb=24, timeout=1500,
+          bounds="shared semaphore acquire future (Option<Arc> taken out for every poll): is_terminated() over the straight-line scenario"),
         H(LIFE, "shared_stream_min_c17", "hold", replay=("shared_stream_min", 0), mask=P(17), est_s=200, est_gb=14, mem_gb=26, timeout=1500,
           bounds="SharedStream (shared mpmc receiver as a stream): 0/1 buffered value, open/closed, two poll_next calls: items, None exactly when closed "
                  "and drained, is_terminated() <=> None was yielded, None again afterwards (straight-line scenario, 4 cases decided symbolically)"),
@@ -987,3 +992,4 @@ DECODERS["mpmc_zst_array"] = decode_mpmc_zst
 
 DECODERS["shared_stream_min"] = lambda cfg, script: ["shared channel(1): try_send(1)=%s, close()=%s; into_stream(); poll_next twice" % (bool(script[0] & 1) if script else "?", bool(script[1] & 1) if len(script) > 1 else "?")]
 DECODERS["mpmc_clear_noalloc"] = decode_raw
+DECODERS["semsh_scenario"] = decode_raw
